@@ -61,6 +61,7 @@ def cases(tier, seed):
     yield dict(kind='dict-latin1')
     # whole files whose supplemental TEXT segment is ill-formed: refused, not loaded without its keywords
     yield dict(kind='files-bad-stext', tier=tier)
+    yield dict(kind='files-empty-stext', tier=tier)
     for delim in '/|\\, *~:;!#%&()+-.<=>?@[]^_`{}\'"' + 'aZ':   # not '$': standard keywords start with it
         yield dict(kind='files', delim=delim, tier=tier)
 
@@ -70,13 +71,19 @@ def bounds(tier, seed):
             'dictionary_string_length': 2 if tier == 'quick' else 3}
 
 
-def call(s, supp, delim=D):
+def call(s, supp, delim=D, context=False):
     import FlowCal
     b = s.encode('latin-1')
+    off = 0
+    if context:
+        # the same segment inside a larger file: other bytes (a delimiter among them) right before and right after it
+        dl_ = delim.encode('latin-1')
+        off = 2
+        b = b'a' + dl_ + b + dl_ + b'a'
     with warnings.catch_warnings(record=True) as w:
         warnings.simplefilter('always')
         try:
-            t, dl = FlowCal.io.read_fcs_text_segment(io.BytesIO(b), 0, len(b) - 1,
+            t, dl = FlowCal.io.read_fcs_text_segment(io.BytesIO(b), off, off + len(s) - 1,
                                                      delim=delim if supp else None, supplemental=supp)
             return 'ok', t, len(w)
         except Exception as e:
@@ -88,6 +95,12 @@ def judge(res, s, supp, delim=D):
     out, val, nwarn = call(s, supp, delim)
     one = dict(kind='one', s=s, supp=supp, delim=delim)
     nontriv = s.count(delim) > 1
+    ctx = call(s, supp, delim, context=True)
+    if ctx != (out, val, nwarn):
+        res.violation('context-dependent:%s' % ('supp' if supp else 'primary'),
+                      'segment %r read on its own gives %r, the same bytes between other bytes of a file (%r before, %r after) give %r' % (
+                          s, (out, val), 'a' + delim, delim + 'a', ctx[:2]), one)
+        return
     if st == textref.ACCEPT and len(tokens) % 2 == 0:
         exp = dict(zip(tokens[0::2], tokens[1::2]))
         if out != 'ok':
@@ -287,6 +300,24 @@ def run_case(c):
             res.violation('file-bad-stext:loaded', 'a file whose supplemental TEXT segment is %r (cannot be split into keyword/value pairs) was loaded; keywords beyond the primary ones: %r' % (
                 sraw, {k_: v for k_, v in dd.text.items() if k_ not in dict(info['primary_pairs'])}), one)
         res.sample({'ill-formed supplemental segments': len(bads), 'alphabet': '/ a b'})
+        return res
+    if k == 'files-empty-stext':
+        # a supplemental window that holds no keyword at all (reserved space filled with blanks, or no byte): the file reads as its
+        # primary keywords, and its ANALYSIS segment as written
+        n = 0
+        for dd in ('/', '|', '\x0c', '*', ','):
+            for raw in ('   ', ' ', '', ' ' * 40):
+                for an in ([('GATE1', '12.5'), ('region' + dd + '1', 'P1' + dd)], None):
+                    for an_off in ('header', 'text'):
+                        for spos in ('after', 'before'):
+                            for version in ('FCS3.0', 'FCS3.1'):
+                                lay = dict(version=version, datatype='I', byteord='1,2,3,4', bits=[16, 16], ranges=[1024, 1024], events=[[1, 2], [3, 4]],
+                                           delim=dd, extra=[('K1', 'v1')], stext_raw=raw, stext_pos=spos, analysis=an or [], analysis_offsets=an_off)
+                                if raw == '':
+                                    lay['stext_zero_length'] = True
+                                judge_file(res, lay, dict(kind='file', layout=lay))
+                                n += 1
+        res.sample({'files with an empty supplemental window': n, 'windows': ['blanks', 'no bytes']})
         return res
     if k == 'files-bad-stext-one':
         return run_case(dict(kind='files-bad-stext', tier='thorough', only=c['raw']))
